@@ -38,6 +38,10 @@
 #include "foam_c.h"
 #include "sexpr.h"
 
+/* Driver-event hooks (guard ALDOR_VERIF) in lib.c/emit.c refer to a counter that lives in phase.c; phase.o is not
+ * pulled into this link (static archives, single pass), so provide a weak stand-in -- the real one wins if present. */
+int verifPhFileNo __attribute__((weak)) = 0;
+
 static FILE *out;
 static const char *src = "file";
 static const char *fam = "boundary";
@@ -282,8 +286,11 @@ static int boundary_fracs(int n, uint64_t *o)
 	uint64_t ones = (n == 64) ? ~0ULL : ((1ULL << n) - 1), alt = 0;
 	for (k = 0; k < n; k += 2) alt |= 1ULL << k;
 	if (!strcmp(fam, "none")) return 0;
+	if (!strcmp(fam, "mini")) {	/* XFloatOps MiniFracs: 0, all ones, alternating (Alt(n,0): bit i = (i+0)%2, i from 1 at the top), top, low */
+		o[c++] = 0; o[c++] = ones; o[c++] = (n % 2) ? (alt & ones) : ((~alt) & ones); o[c++] = 1; o[c++] = 1ULL << (n - 1);
+		return c;
+	}
 	o[c++] = 0; o[c++] = ones; o[c++] = alt & ones; o[c++] = (~alt) & ones;
-	if (!strcmp(fam, "mini")) { o[c++] = 1; o[c++] = 1ULL << (n - 1); return c; }
 	for (k = 0; k < n; k++) o[c++] = 1ULL << k;
 	if (!strcmp(fam, "lite")) return c;
 	for (k = 0; k < n; k++) o[c++] = ones & ~(1ULL << k);
